@@ -7,9 +7,9 @@ from c05 import round_to, neighbours
 
 PID = "C02"
 MODEL_TARGETS = ["Proofs/Eval.vo", "Amount/F64.vo", "Amount/Dec.vo", "Gen/Catalogue.vo"]
-PROOF_TARGETS = ["Props/C02.vo", "Pinned/C02.vo", "Props/Accuracy.vo", "Pinned/Accuracy.vo", "Props/AccuracyDec.vo", "Pinned/AccuracyDec.vo"]
-PROPS = ["Props/C02.v", "Props/Accuracy.v", "Props/AccuracyDec.v"]
-COQCHK = ["QV.Props.C02", "QV.Props.Accuracy", "QV.Props.AccuracyDec"]
+PROOF_TARGETS = ["Props/C02.vo", "Pinned/C02.vo", "Props/Accuracy.vo", "Pinned/Accuracy.vo", "Props/AccuracyDec.vo", "Pinned/AccuracyDec.vo", "Props/Programs.vo", "Pinned/Programs.vo"]
+PROPS = ["Props/C02.v", "Props/Accuracy.v", "Props/AccuracyDec.v", "Props/Programs.v"]
+COQCHK = ["QV.Props.C02", "QV.Props.Accuracy", "QV.Props.AccuracyDec", "QV.Props.Programs"]
 TRUSTED_BASE = [
     "Coq 8.16.1 kernel (coqc); coqchk in the thorough tier",
     "translator rs2j+j2v: HasRefUnit::eq / partial_cmp and the generated PartialEq / PartialOrd forwarding impls translated from the current source (Gen/Kernels.v)",
